@@ -6,13 +6,31 @@ protocol (TempNamesDistinct, part of C17's model) and spec/EnumLayout.tla (the e
 every order in which types are met).  Code level: every program is compiled and run again in fresh processes
 (fresh hash seeds) with RAYON_NUM_THREADS in {1, 2, 3, 8, 16}; spec/Observations.tla (invariant C12)
 accepts the recorded repetitions iff verdict, rendered diagnostics and the observable behaviour of both
-back ends are identical across them."""
+back ends are identical across them.  The programs are compiled by the compiler's own driver
+(samlang_compiler::compile_sources, build "api"), as the CLI does.
+
+Programs: generated ones, the repository's samples, variants with several independent errors, the hand-written
+corpus of diagnostics that choose among candidates (corpus/c12), single-fault mutants of every kind of C06's fault
+model, and EnumLayout.tla's declaration sets split over two entry modules that meet the enums in opposite orders."""
 import json, os, time
 from vlib import *
 import progcommon as pc
 import enumlayout
 
 PID = "C12"
+
+
+def corpus_programs():
+    out = []
+    base = os.path.join(VERIF, "corpus", "c12")
+    for name in sorted(os.listdir(base)):
+        pth = os.path.join(base, name)
+        if os.path.isdir(pth):
+            srcs = {f[:-4]: open(os.path.join(pth, f)).read() for f in sorted(os.listdir(pth)) if f.endswith(".sam")}
+            out.append({"origin": f"corpus:c12/{name}", "entry": "Main", "sources": srcs})
+        elif name.endswith(".sam"):
+            out.append({"origin": f"corpus:c12/{name[:-4]}", "entry": "Main", "sources": {"Main": open(pth).read()}})
+    return out
 
 
 def broken_variants(programs, k):
@@ -49,12 +67,28 @@ def run(tier):
     repo = pc.repo_programs()
     programs += repo[:1] if tier == "quick" else repo[:12]
     programs += broken_variants(programs, 8 if tier == "quick" else 80)
+    # diagnostics that pick one of several candidates or list several names (corpus/c12: rejected on purpose)
+    programs += corpus_programs()
+    # every kind of single fault of C06's fault model, for the variety of diagnostics
+    base = pc.generated_programs(d, 6 if tier == "quick" else 60, SEED + 112, "mixed")
+    for i, p in enumerate(base):
+        p["id"] = i
+    write_ndjson(os.path.join(d, "fault-in.ndjson"), base)
+    vh(["mutate", "--in", os.path.join(d, "fault-in.ndjson"), "--out", os.path.join(d, "fault-mutants.ndjson"),
+        "--per-program", 12 if tier == "quick" else 40, "--full", "--seed", SEED + 212], timeout=3000)
+    programs += read_ndjson(os.path.join(d, "fault-mutants.ndjson"))
+    # mutually recursive enum declarations met in opposite orders by two entry modules (EnumLayout.tla's two
+    # processing orders, left to the order in which the compiler enumerates the modules)
+    lcases = [c for c in enumlayout.layout_cases(PID, "quick") if c["e1"] and c["e2"]]
+    lcases.sort(key=lambda c: not enumlayout.mutually_recursive(c))
+    for c in lcases[:(12 if tier == "quick" else 150)]:
+        programs += enumlayout.two_entry_programs(c)
     threads = [1, 2, 3, 8, 16]
     reps_per = 1 if tier == "quick" else 3
     runs = []
     for t in threads:
         for rep in range(reps_per):
-            recs = pc.run_programs(d, f"t{t}r{rep}", json.loads(json.dumps(programs)), [31], jobs=4,
+            recs = pc.run_programs(d, f"t{t}r{rep}", json.loads(json.dumps(programs)), ["api"], jobs=4,
                                    env={"RAYON_NUM_THREADS": str(t)})
             runs.append(recs)
     rows = []
@@ -104,7 +138,7 @@ def replay(path):
     p = case["program"]
     p["with_std"] = case.get("with_std", True)
     d = outdir(PID)
-    runs = [pc.run_programs(d, f"rp{t}", [json.loads(json.dumps(p))], [31], jobs=1, env={"RAYON_NUM_THREADS": str(t)}) for t in (1, 2, 3, 8, 16)]
+    runs = [pc.run_programs(d, f"rp{t}", [json.loads(json.dumps(p))], ["api"], jobs=1, env={"RAYON_NUM_THREADS": str(t)}) for t in (1, 2, 3, 8, 16)]
     rows = [{"id": 0, "origin": p["origin"], "front": runs[0][0].get("front"),
              "reps": [{k: v for k, v in r[0].items() if k in ("front", "rendered", "builds", "crash")} for r in runs]}]
     tr = os.path.join(d, "c12-replay.ndjson")
